@@ -95,10 +95,10 @@ package graphql
 
 //@ func completePlannedValueCatchingError
 //@   trusted
-//@   assigns class:executionContext.Errors, class:FormattedError, class:M|*graphql.Object|*graphql.selectionPlan, class:graphql.selectionPlan, class:graphql.fieldPlan, class:M|string|int, class:M|string|bool, class:E|*graphql.fieldPlan, class:E|*ast.Field, class:M|string|interface, class:E|interface, class:graphql.fragmentGate, class:E|graphql.fragmentSpreadEdge, class:M|string|*graphql.fragmentGate, class:E|func, class:graphql.Plan.expanding, class:M|*ast.Field|bool
+//@   assigns class:executionContext.Errors, class:FormattedError, class:M|*graphql.Object|*graphql.selectionPlan, class:graphql.selectionPlan, class:graphql.fieldPlan, class:M|string|int, class:M|string|bool, class:E|*graphql.fieldPlan, class:E|*ast.Field, class:M|string|interface, class:E|interface, class:graphql.fragmentGate, class:graphql.fragmentTrace, class:E|graphql.collectStep, class:M|string|*graphql.fragmentTrace, class:E|graphql.fragmentSpreadEdge, class:M|string|*graphql.fragmentGate, class:E|func, class:graphql.Plan.expanding, class:M|*ast.Field|bool
 
 //@ func resolvePlannedField
-//@   assigns class:executionContext.Errors, class:FormattedError, class:M|*graphql.Object|*graphql.selectionPlan, class:graphql.selectionPlan, class:graphql.fieldPlan, class:M|string|int, class:M|string|bool, class:E|*graphql.fieldPlan, class:E|*ast.Field, class:M|string|interface, class:E|interface, class:graphql.fragmentGate, class:E|graphql.fragmentSpreadEdge, class:M|string|*graphql.fragmentGate, class:E|func, class:graphql.Plan.expanding, class:M|*ast.Field|bool
+//@   assigns class:executionContext.Errors, class:FormattedError, class:M|*graphql.Object|*graphql.selectionPlan, class:graphql.selectionPlan, class:graphql.fieldPlan, class:M|string|int, class:M|string|bool, class:E|*graphql.fieldPlan, class:E|*ast.Field, class:M|string|interface, class:E|interface, class:graphql.fragmentGate, class:graphql.fragmentTrace, class:E|graphql.collectStep, class:M|string|*graphql.fragmentTrace, class:E|graphql.fragmentSpreadEdge, class:M|string|*graphql.fragmentGate, class:E|func, class:graphql.Plan.expanding, class:M|*ast.Field|bool
 //@   props C04 C20 C06
 //@   nosafety
 //@   requires eCtx != nil && fp != nil && fp.fieldDef != nil
@@ -121,7 +121,7 @@ package graphql
 //@   functional
 
 //@ func executePlannedSelection
-//@   assigns class:executionContext.Errors, class:FormattedError, class:M|*graphql.Object|*graphql.selectionPlan, class:graphql.selectionPlan, class:graphql.fieldPlan, class:M|string|int, class:M|string|bool, class:E|*graphql.fieldPlan, class:E|*ast.Field, class:M|string|interface, class:E|interface, class:graphql.fragmentGate, class:E|graphql.fragmentSpreadEdge, class:M|string|*graphql.fragmentGate, class:E|func, class:graphql.Plan.expanding, class:M|*ast.Field|bool
+//@   assigns class:executionContext.Errors, class:FormattedError, class:M|*graphql.Object|*graphql.selectionPlan, class:graphql.selectionPlan, class:graphql.fieldPlan, class:M|string|int, class:M|string|bool, class:E|*graphql.fieldPlan, class:E|*ast.Field, class:M|string|interface, class:E|interface, class:graphql.fragmentGate, class:graphql.fragmentTrace, class:E|graphql.collectStep, class:M|string|*graphql.fragmentTrace, class:E|graphql.fragmentSpreadEdge, class:M|string|*graphql.fragmentGate, class:E|func, class:graphql.Plan.expanding, class:M|*ast.Field|bool
 //@   props C20 C13 C01
 //@   nosafety
 //@   requires eCtx != nil
@@ -179,7 +179,7 @@ package graphql
 //@   assigns nothing
 
 //@ func completePlannedListValue
-//@   assigns class:executionContext.Errors, class:FormattedError, class:M|*graphql.Object|*graphql.selectionPlan, class:graphql.selectionPlan, class:graphql.fieldPlan, class:M|string|int, class:M|string|bool, class:E|*graphql.fieldPlan, class:E|*ast.Field, class:M|string|interface, class:E|interface, class:graphql.fragmentGate, class:E|graphql.fragmentSpreadEdge, class:M|string|*graphql.fragmentGate, class:E|func, class:graphql.Plan.expanding, class:M|*ast.Field|bool
+//@   assigns class:executionContext.Errors, class:FormattedError, class:M|*graphql.Object|*graphql.selectionPlan, class:graphql.selectionPlan, class:graphql.fieldPlan, class:M|string|int, class:M|string|bool, class:E|*graphql.fieldPlan, class:E|*ast.Field, class:M|string|interface, class:E|interface, class:graphql.fragmentGate, class:graphql.fragmentTrace, class:E|graphql.collectStep, class:M|string|*graphql.fragmentTrace, class:E|graphql.fragmentSpreadEdge, class:M|string|*graphql.fragmentGate, class:E|func, class:graphql.Plan.expanding, class:M|*ast.Field|bool
 //@   props C20 C18 C04
 //@   nosafety
 //@   requires eCtx != nil && returnType != nil
@@ -188,7 +188,7 @@ package graphql
 //@   loop 1 invariant fresh(completedResults)
 
 //@ func completePlannedObjectValue
-//@   assigns class:executionContext.Errors, class:FormattedError, class:M|*graphql.Object|*graphql.selectionPlan, class:graphql.selectionPlan, class:graphql.fieldPlan, class:M|string|int, class:M|string|bool, class:E|*graphql.fieldPlan, class:E|*ast.Field, class:M|string|interface, class:E|interface, class:graphql.fragmentGate, class:E|graphql.fragmentSpreadEdge, class:M|string|*graphql.fragmentGate, class:E|func, class:graphql.Plan.expanding, class:M|*ast.Field|bool
+//@   assigns class:executionContext.Errors, class:FormattedError, class:M|*graphql.Object|*graphql.selectionPlan, class:graphql.selectionPlan, class:graphql.fieldPlan, class:M|string|int, class:M|string|bool, class:E|*graphql.fieldPlan, class:E|*ast.Field, class:M|string|interface, class:E|interface, class:graphql.fragmentGate, class:graphql.fragmentTrace, class:E|graphql.collectStep, class:M|string|*graphql.fragmentTrace, class:E|graphql.fragmentSpreadEdge, class:M|string|*graphql.fragmentGate, class:E|func, class:graphql.Plan.expanding, class:M|*ast.Field|bool
 //@   props C20 C04
 //@   nosafety
 //@   requires eCtx != nil && returnType != nil
@@ -199,7 +199,7 @@ package graphql
 //@   at[C20] call abstractAlternative: assert fp.sub == nil && fp.plannedOnDemand && arg1 == fp && arg2 == returnType
 
 //@ func completePlannedAbstractValue
-//@   assigns class:executionContext.Errors, class:FormattedError, class:M|*graphql.Object|*graphql.selectionPlan, class:graphql.selectionPlan, class:graphql.fieldPlan, class:M|string|int, class:M|string|bool, class:E|*graphql.fieldPlan, class:E|*ast.Field, class:M|string|interface, class:E|interface, class:graphql.fragmentGate, class:E|graphql.fragmentSpreadEdge, class:M|string|*graphql.fragmentGate, class:E|func, class:graphql.Plan.expanding, class:M|*ast.Field|bool
+//@   assigns class:executionContext.Errors, class:FormattedError, class:M|*graphql.Object|*graphql.selectionPlan, class:graphql.selectionPlan, class:graphql.fieldPlan, class:M|string|int, class:M|string|bool, class:E|*graphql.fieldPlan, class:E|*ast.Field, class:M|string|interface, class:E|interface, class:graphql.fragmentGate, class:graphql.fragmentTrace, class:E|graphql.collectStep, class:M|string|*graphql.fragmentTrace, class:E|graphql.fragmentSpreadEdge, class:M|string|*graphql.fragmentGate, class:E|func, class:graphql.Plan.expanding, class:M|*ast.Field|bool
 //@   props C20 C04 C01
 //@   nosafety
 //@   requires eCtx != nil && fp != nil && (eCtx.plan == nil || !held(&eCtx.plan.abstractMu))
@@ -669,12 +669,12 @@ package graphql
 
 //@ func Plan.planMergedSelectionsForType
 //@   opt maypanic=true
-//@   assigns class:graphql.selectionPlan, class:graphql.fieldPlan, class:graphql.fragmentGate, class:E|graphql.fragmentSpreadEdge, class:M|string|*graphql.fragmentGate, class:M|string|int, class:M|string|bool, class:E|*graphql.fieldPlan, class:E|*ast.Field, class:E|func, class:graphql.Plan.expanding, class:M|*ast.Field|bool
+//@   assigns class:graphql.selectionPlan, class:graphql.fieldPlan, class:graphql.fragmentGate, class:graphql.fragmentTrace, class:E|graphql.collectStep, class:M|string|*graphql.fragmentTrace, class:E|graphql.fragmentSpreadEdge, class:M|string|*graphql.fragmentGate, class:M|string|int, class:M|string|bool, class:E|*graphql.fieldPlan, class:E|*ast.Field, class:E|func, class:graphql.Plan.expanding, class:M|*ast.Field|bool
 
 //@ func Plan.abstractAlternative
 //@   props C01 C07 C09 C19
 //@   nosafety
-//@   assigns class:M|*graphql.Object|*graphql.selectionPlan, class:graphql.selectionPlan, class:graphql.fieldPlan, class:M|string|int, class:M|string|bool, class:E|*graphql.fieldPlan, class:E|*ast.Field, class:M|string|interface, class:E|interface, class:graphql.fragmentGate, class:E|graphql.fragmentSpreadEdge, class:M|string|*graphql.fragmentGate, class:E|func, class:graphql.Plan.expanding, class:M|*ast.Field|bool
+//@   assigns class:M|*graphql.Object|*graphql.selectionPlan, class:graphql.selectionPlan, class:graphql.fieldPlan, class:M|string|int, class:M|string|bool, class:E|*graphql.fieldPlan, class:E|*ast.Field, class:M|string|interface, class:E|interface, class:graphql.fragmentGate, class:graphql.fragmentTrace, class:E|graphql.collectStep, class:M|string|*graphql.fragmentTrace, class:E|graphql.fragmentSpreadEdge, class:M|string|*graphql.fragmentGate, class:E|func, class:graphql.Plan.expanding, class:M|*ast.Field|bool
 //@   requires p != nil && fp != nil && !held(&p.abstractMu)
 //@   ensures !held(&p.abstractMu)
 //@   panics !held(&p.abstractMu)
@@ -744,7 +744,7 @@ package graphql
 //@ func Plan.collectInto
 //@   props C01 C13 C20
 //@   nosafety
-//@   assigns class:graphql.selectionPlan, class:graphql.fieldPlan, class:graphql.fragmentGate, class:E|graphql.fragmentSpreadEdge, class:M|string|*graphql.fragmentGate, class:M|string|int, class:M|string|bool, class:E|*graphql.fieldPlan, class:E|*ast.Field, class:E|func, class:graphql.Plan.expanding, class:M|*ast.Field|bool
+//@   assigns class:graphql.selectionPlan, class:graphql.fieldPlan, class:graphql.fragmentGate, class:graphql.fragmentTrace, class:E|graphql.collectStep, class:M|string|*graphql.fragmentTrace, class:E|graphql.fragmentSpreadEdge, class:M|string|*graphql.fragmentGate, class:M|string|int, class:M|string|bool, class:E|*graphql.fieldPlan, class:E|*ast.Field, class:E|func, class:graphql.Plan.expanding, class:M|*ast.Field|bool
 //@   requires p != nil
 //@   requires sp != nil
 //@   requires selectionSet != nil
@@ -760,15 +760,23 @@ package graphql
 // its AST so that only included occurrences contribute their sub-selections.
 //@   at[C01] call andPredicates#2: assert arg0 == parentPred && arg1 == pred
 //@   at[C01] call andPredicates#1: assert arg0 == containerPred && arg1 == lastresult("andPredicates")
-//@   at[C01] call andPredicates#4: assert arg0 == parentPred && arg1 == pred
-//@   at[C01] call andPredicates#3: assert arg0 == containerPred && arg1 == lastresult("andPredicates")
+//@   at[C01] call andPredicates#5: assert arg0 == parentPred && arg1 == pred
+//@   at[C01] call andPredicates#4: assert arg0 == containerPred && arg1 == lastresult("andPredicates")
+// every occurrence and every spread is recorded, with its own (local) condition, in collection order:
+// the execution-time replay (fieldsInOrder) gives each request the order of ITS included occurrences (C13)
+//@   at[C13,C01] call andPredicates#3: assert arg0 == parentPred && arg1 == pred
+//@   at[C13,C01] call andPredicates#6: assert arg0 == parentPred && arg1 == pred
+//@   at[C13,C01] call record#1: assert arg0 == sp && arg1.field == merged && arg1.spread == nil && arg1.cond == lastresult("andPredicates")
+//@   at[C13,C01] call record#2: assert arg0 == sp && arg1.field == fp && arg1.spread == nil && arg1.cond == lastresult("andPredicates")
+//@   at[C13,C01] call record#3: assert arg0 == sp && arg1.field == nil && arg1.spread == trace && arg1.cond == spreadPred
+//@   at[C13,C01] call record#4: assert arg0 == sp && arg1.field == nil && arg1.spread == trace && arg1.cond == spreadPred && fresh(trace)
 //@   at[C01] call append#2: assert arg0 == sp.fields[keyed[responseKey]].astPredicates && len(arg1) == 1 && arg1[0] == occurrencePred && occurrencePred == lastresult("andPredicates")
 //@   at[C01] call orPredicates: assert arg0 == sp.fields[keyed[responseKey]].skipPredicate && arg1 == occurrencePred
 //@   loop[C01] 1 ensures typeis(iSelection, "*ast.Field") && calls("getFieldDef") == atloop(1, calls("getFieldDef")) && calls("andPredicates") > atloop(1, calls("andPredicates")) ==> calls("orPredicates") == atloop(1, calls("orPredicates")) + 1 && calls("append") == atloop(1, calls("append")) + 2
 // enclosing conditions are threaded through inline fragments and (as the gate) through named fragments
-//@   at[C01] call andPredicates#5: assert arg0 == parentPred && arg1 == pred
+//@   at[C01] call andPredicates#7: assert arg0 == parentPred && arg1 == pred
 //@   at[C01] call collectInto#1: assert arg6 == lastresult("andPredicates") && arg7 == container
-//@   at[C01] call andPredicates#6: assert arg0 == parentPred && arg1 == pred
+//@   at[C01] call andPredicates#8: assert arg0 == parentPred && arg1 == pred
 //@   at[C01] call collectInto#2: assert arg6 == nil && (arg7 == nil <==> (container == nil && spreadPred == nil))
 //@   at[C01] call add: assert arg1 == container && arg2 == spreadPred
 // a fragment that was already collected under a gate is widened by every later spread
@@ -817,7 +825,7 @@ package graphql
 //@   props C09 C19
 //@   nosafety
 //@   requires p != nil && fp != nil
-//@   assigns class:graphql.Plan.expanding, class:M|*ast.Field|bool, class:graphql.selectionPlan, class:graphql.fieldPlan, class:graphql.fragmentGate, class:E|graphql.fragmentSpreadEdge, class:M|string|*graphql.fragmentGate, class:M|string|int, class:M|string|bool, class:E|*graphql.fieldPlan, class:E|*ast.Field, class:E|func
+//@   assigns class:graphql.Plan.expanding, class:M|*ast.Field|bool, class:graphql.selectionPlan, class:graphql.fieldPlan, class:graphql.fragmentGate, class:graphql.fragmentTrace, class:E|graphql.collectStep, class:M|string|*graphql.fragmentTrace, class:E|graphql.fragmentSpreadEdge, class:M|string|*graphql.fragmentGate, class:M|string|int, class:M|string|bool, class:E|*graphql.fieldPlan, class:E|*ast.Field, class:E|func
 //@   loop 1 invariant forall j in 0..rangeindex+1: !p.expanding[fp.fieldASTs[j]]
 //@   loop 2 invariant forall j in 0..rangeindex+1: p.expanding[fp.fieldASTs[j]]
 //@   loop 2 invariant fp.fieldASTs == old(fp.fieldASTs)
@@ -1153,5 +1161,13 @@ package graphql
 //@   functional
 //@   assigns nothing
 //@ func ValidationContext.Type
+//@   trusted
+//@   assigns nothing
+
+// the trace of collected selections (C13): appended to the list being collected
+//@ func selectionPlan.record
+//@   trusted
+//@   assigns class:graphql.selectionPlan, class:graphql.fragmentTrace, class:E|graphql.collectStep
+//@ func selectionPlan.fieldsInOrder
 //@   trusted
 //@   assigns nothing
